@@ -219,7 +219,9 @@ func (h *Harness) Quiesce() error {
 
 // BusyBeyond returns how many background goroutines are alive beyond parked
 // calls and n further goroutines the caller knows to be waiting.
-func (h *Harness) BusyBeyond(n int) int { return runtime.NumGoroutine() - (h.baseline + h.C.nParked() + n) }
+func (h *Harness) BusyBeyond(n int) int {
+	return runtime.NumGoroutine() - (h.baseline + h.C.nParked() + n)
+}
 
 // Busy reports whether background goroutines (beyond parked calls) are alive.
 func (h *Harness) Busy() bool { return runtime.NumGoroutine() > h.baseline+h.C.nParked() }
